@@ -104,6 +104,8 @@ class Verifier(QuantMixin, LoopMixin, ExprMixin, CallMixin, StmtMixin, BuiltinsM
         spec = spec.strip()
         if spec == 'any':
             return z3.BoolVal(True)
+        if spec.startswith('oneof:'):
+            return z3.Or(*[v == self.pin_val(q) for q in spec[6:].split(',')])
         if spec.startswith('opt:'):
             return z3.Or(Val.is_none(v), self.type_formula(v, spec[4:], hint=False))
         if '|' in spec:
@@ -440,6 +442,47 @@ class Verifier(QuantMixin, LoopMixin, ExprMixin, CallMixin, StmtMixin, BuiltinsM
                 xs = self.ev(arg, fr)
             return self.exc_listed_term(xs, exc)
         return super().exc_matches(exc, type_expr, fr)
+
+    # ---- assumed contracts of the json module (DESIGN 3.5); validated by a bounded test in ./check assumed
+    def bi_json_dumps(self, args, kwargs):
+        """json.dumps(obj, cls=E): the document put into the text is obj itself when it is JSON-native, else
+        E().default(obj) (one level: the library's to_json results are JSON-native under A-user); returns a
+        str t with doc_of(t) == that document.  TypeError for values E cannot encode comes from default()."""
+        obj = args[0]
+        enc = kwargs.get('cls')
+        k = self.kind_of(obj, force=True)
+        doc = obj
+        if k == 'ref':
+            c = self.require_class(obj, 'json.dumps argument')
+            if not (c.builtin and c.name in ('dict', 'list', 'tuple')):
+                if enc is None or smt.tag_of(enc) == 'none':
+                    self.raise_new('TypeError', smt.mk_str('Object is not JSON serializable'))
+                e = self.call(enc, [], {})
+                doc = self.call(self.get_attr(e, 'default'), [obj], {})
+        t = self.fresh('text', z3.StringSort())
+        text = Val.str(t)
+        self._add_axiom(z3.Function('ufv_doc_of', Val, Val)(text) == doc)
+        return text
+
+    def bi_json_loads(self, args, kwargs):
+        """json.loads(text): TypeError unless text is a str (bytes are not modelled); otherwise returns a JSON
+        value v = parsed(text) (deep JSON, never aliasing objects of the analysed call), or raises
+        JSONDecodeError, or raises a plain ValueError (integer literal beyond the interpreter's digit limit)"""
+        text = args[0]
+        k = self.kind_of(text, force=True)
+        if k != 'str':
+            self.raise_new('TypeError', smt.mk_str('the JSON object must be str, bytes or bytearray'),
+                           origin='json.loads of a non-string')
+        which = self.choose([z3.BoolVal(True)] * 3)
+        if which == 1:
+            self.raise_new('JSONDecodeError', smt.mk_str('invalid json'), origin='json.loads')
+        if which == 2:
+            self.raise_new('ValueError', smt.mk_str('Exceeds the limit for integer string conversion'),
+                           origin='json.loads: integer literal beyond sys.get_int_max_str_digits()')
+        v = z3.Function('ufv_parsed', Val, Val)(text)
+        self.mark_external(v)
+        self._add_axiom(self.type_formula(v, 'json', hint=False))
+        return v
 
     def bi_time_sleep(self, args, kwargs):
         """assumed: time.sleep / asyncio.sleep only pause; recorded as a ghost event ('sleep', (delay,))"""
@@ -829,6 +872,12 @@ class Verifier(QuantMixin, LoopMixin, ExprMixin, CallMixin, StmtMixin, BuiltinsM
         vals: Dict[str, Any] = {}
 
         def mk(name: str):
+            spec0 = ct.types.get(name, '')
+            if spec0.startswith('oneof:'):
+                opts = [self.pin_val(q) for q in spec0[6:].split(',')]
+                v = opts[self.choose([z3.BoolVal(True)] * len(opts))]
+                vals[name] = v
+                return v
             if name in ct.pins:
                 v = self.pin_val(ct.pins[name])
             else:
